@@ -93,7 +93,7 @@ class Leaf:
 
 def same_keys(a, b):
     return len(a) == len(b) and all(type(x) is type(y) or (isinstance(y, Idx) and type(x) is int) for x, y in zip(a, b)) and \
-        all((x == y) for x, y in zip(a, b))
+        all((x == y) or (x != x and y != y) for x, y in zip(a, b))
 
 
 def observe(keys):
@@ -152,6 +152,8 @@ def gen_sequences(ctx):
         seqs.append([w])
     for k in NONSTR:
         seqs.append([k])
+    for k in (float('inf'), float('-inf'), float('nan')):
+        seqs.append([k]); seqs.append(['top', k, 'v']); seqs.append([k, Idx(1)]); seqs.append(['inf', k]); seqs.append([Idx(0), k, "it's"])
     for i in (0, 1, 3):
         seqs.append([Idx(i)])
     n = 6000 if ctx.thorough() else 700
@@ -241,7 +243,7 @@ def run(ctx, impl_only=False):
     lines_r, lines_p, lines_s, idx = [], [], [], []
     for i, (ks, o) in enumerate(zip(seqs, obs)):
         plain = [int(k) if isinstance(k, Idx) else k for k in ks]
-        dom = all(safe_key(k) for k in ks)
+        dom = all(safe_key(k) for k in ks) and not any(isinstance(k, float) and (k != k or k in (float('inf'), float('-inf'))) for k in ks)
         case = {'keys': [repr(k) for k in ks], 'path': o.get('path')}
         ctx.evaluations += 1
         ctx.count('in_domain' if dom else 'out_of_domain')
@@ -263,7 +265,20 @@ def run(ctx, impl_only=False):
                 ctx.violate(case, 'tree list-form path = %r, expected %r' % (o['tree_list'], plain))
             if o.get('stringified') != o['path']:
                 ctx.violate(case, 'stringify_path(parse_path(%r)) = %r' % (o['path'], o.get('stringified')))
-        if o.get('path') is not None and not impl_only:
+        nonfinite = any(isinstance(k, float) and (k != k or k in (float('inf'), float('-inf'))) for k in ks)
+        if not dom and 'crash' not in o:
+            # outside the domain of the string form (a key with both quote kinds, finding F8a; a non-finite float key, which DeepDiff declares
+            # unrepresentable by reporting no path): the tree view's list-form path never goes through a string and is still exactly the key sequence
+            if o.get('tree_list') is not None and not (isinstance(o['tree_list'], list) and same_keys(o['tree_list'], plain)):
+                ctx.violate(case, 'tree list-form path = %r, expected %r' % (o['tree_list'], plain))
+            ctx.count('list_form_outside_string_domain')
+            if nonfinite and all(safe_key(k) for k in ks) and o.get('path') is not None:
+                # a path was reported after all: then it has to work like any other
+                if not o['extract_ok']:
+                    ctx.violate(case, 'extract(t1, %r) gave %s, not the object at that location' % (o['path'], o['extract']))
+                if not (isinstance(o['parsed'], list) and same_keys(o['parsed'], plain)):
+                    ctx.violate(case, 'parse_path(%r) = %r, expected %r' % (o['path'], o['parsed'], plain))
+        if o.get('path') is not None and not impl_only and not nonfinite:
             lines_r.append('PRENDER ' + ' '.join(key_tok(k) for k in plain))
             lines_p.append('PPARSE ' + enc_str(o['path']))
             lines_s.append('PSTRINGIFY G ' + ' '.join(key_tok(k) for k in o['parsed'])) if isinstance(o['parsed'], list) and o['parsed'] and all(k is None or isinstance(k, (str, int, float, bool)) for k in o['parsed']) else lines_s.append(None)     # literal_eval can also yield bytes / tuples: outside the key universe
